@@ -233,6 +233,12 @@ def evaluate(rep, cases, harness, driver, stats):
     def fail(ci, cfg, what, detail, key=None, no_failing_input=False):
         failures.append((ci, cfg, what))
         c = cases[ci]
+        # at most 5 replay files per (kind, stream): a broken formatter fails thousands of cases
+        capk = (what, c["kind"])
+        stats.setdefault("violations_by_kind", {})
+        stats["violations_by_kind"]["%s / %s" % capk] = stats["violations_by_kind"].get("%s / %s" % capk, 0) + 1
+        if stats["violations_by_kind"]["%s / %s" % capk] > 5:
+            return
         payload = {"property": PROP, "kind": what, "stream": c["kind"], "text": c["text"],
                    "width": cfg[0] if cfg else None, "indent": cfg[1] if cfg else None, "detail": detail,
                    "replay": "./check C12 --replay <this file>"}
@@ -382,7 +388,8 @@ def run(rep, tier, seed):
         "validator_verdicts": {"true": stats.get("validator_true", 0), "false": stats.get("validator_false", 0)},
         "idempotence_checked": stats.get("idempotence_checked", 0), "respace_checked": stats.get("respace_checked", 0),
         "lexer_correspondence": {k: v for k, v in stats.items() if k.startswith("lex_")},
-        "operator_histogram": ops,
+        "operator_histogram": ops, "violations_by_kind": stats.get("violations_by_kind", {}),
+        "trailing_comma_texts_outside_validator_domain": stats.get("trailing_comma_texts", 0),
         "samples": [{"text": sample["text"], "kind": sample["kind"]}, {"text": cases[-1]["text"], "kind": cases[-1]["kind"]}],
     }
     rep.assumptions = [
